@@ -90,6 +90,12 @@ def make(kind):
         g.append(h)
         g.append(svg.Path("M1,1 Q2,2 3,1 z", fill="blue"))
         return g
+    if kind == "TextLen":
+        return svg.Text("hello", x="1in", y="2in", fill="red", transform="scale(2)")
+    if kind == "ImageLen":
+        return svg.Image(href="x.png", x="1in", y="10%", width="3in", height="4in", transform="translate(1,1)")
+    if kind == "MatrixLen":
+        return svg.Matrix("translate(1in, 2in)")
     if kind == "Text":
         return svg.Text("hello", x=3, y=4, fill="red", transform="scale(2)")
     if kind == "Image":
@@ -210,6 +216,17 @@ def mutate(obj, m):
             if hasattr(obj, a):
                 v = getattr(obj, a)
                 setattr(obj, a, v * 2 if isinstance(v, svg.Length) else v + 10)
+                return
+        raise KeyError("no geometry attribute")
+    elif m == "scalegeom":
+        # the in-place operator of an attribute that is a Length (x="1in"): obj.x *= 2 mutates that Length object
+        for a in ("x", "cx", "e"):
+            if hasattr(obj, a):
+                v = getattr(obj, a)
+                if not isinstance(v, svg.Length):
+                    raise KeyError("attribute is not a Length")
+                v *= 2
+                setattr(obj, a, v)
                 return
         raise KeyError("no geometry attribute")
     elif m == "childedit":
